@@ -446,6 +446,7 @@ type genDoc struct {
 	vars     map[string]interface{} // VariableValues handed to Execute
 	env      map[string]*bool       // coerced values of the declared variables (nil: an explicit null)
 	mutation bool
+	opName   string // Request.OperationName
 }
 
 func genDocument(r *rng.R, s *schemaDef, hostile bool) genDoc {
@@ -544,7 +545,54 @@ func genDocument(r *rng.R, s *schemaDef, hostile bool) genDoc {
 	for _, f := range g.frags {
 		fr += fmt.Sprintf("fragment %s on %s {%s}\n", f.name, f.cond, f.body)
 	}
-	op := head + " {" + body + "}\n"
+	// several operations in one document, one of them selected by Request.OperationName
+	before, after := "", ""
+	if r.Chance(1, 4) {
+		kw := "query"
+		if out.mutation {
+			kw = "mutation"
+		}
+		head = kw + " Main" + strings.TrimPrefix(strings.TrimPrefix(head, "query"), "mutation")
+		extras := []string{"query X1 {__typename}", "query X2 {zt: __typename}"}
+		if s.mutation != "" {
+			extras = append(extras, "mutation X3 {__typename}")
+		}
+		if hostile {
+			// validation refuses these: a second operation of the same name, an anonymous one among others
+			extras = append(extras, kw+" Main {__typename}", "{__typename}", "query X1 {zz: __typename}")
+		}
+		var names []string
+		for i, n := 0, r.Range(1, 3); i < n; i++ {
+			x := rng.Pick(r, extras)
+			if !hostile && (strings.Contains(before, x) || strings.Contains(after, x)) {
+				continue
+			}
+			if f := strings.Fields(x); len(f) > 1 && f[1] != "Main" && !strings.HasPrefix(f[1], "{") {
+				names = append(names, f[1])
+			}
+			if r.Bool() {
+				before += x + "\n"
+			} else {
+				after += x + "\n"
+			}
+		}
+		switch y := r.Intn(10); {
+		case y < 6:
+			out.opName = "Main"
+		case y == 6:
+			out.opName = "" // several operations and no name: refused
+		case y == 7:
+			out.opName = "Nope"
+		default:
+			if len(names) > 0 {
+				out.opName = rng.Pick(r, names)
+				out.env = map[string]*bool{}
+			} else {
+				out.opName = "Main"
+			}
+		}
+	}
+	op := before + head + " {" + body + "}\n" + after
 	if r.Bool() {
 		sb.WriteString(layout(fr) + layout(op))
 	} else {
